@@ -307,7 +307,7 @@ theorem no_panic_partial :
         (handlePeerMessage m k msg).1.panicked = m.1.panicked) ∧
     (∀ m : M, QueueOK m.1 → (processQueued m).1.panicked = m.1.panicked ∧ QueueOK (processQueued m).1) ∧
     (∀ (m : M) (w : WriteJob),
-        (w.good = true → ∃ b, m.1.bf = some b ∧ b.getD w.piece false = false) →
+        (w.good = true → w.gen = m.1.gen → m.1.loaded = true → ∃ b, m.1.bf = some b ∧ b.getD w.piece false = false) →
         (m.1.completeCClosed = true → m.1.completed = true) → (writerRun m w).1.panicked = m.1.panicked) ∧
     (∀ m : M, m.1.completeCClosed = m.1.completed → QueueOK m.1 → (allocatorRun m).1.panicked = m.1.panicked) ∧
     (∀ m : M, m.1.completeCClosed = m.1.completed → QueueOK m.1 → m.1.panicked = none →
@@ -319,18 +319,19 @@ theorem no_panic_partial :
     handleVerificationDone_no_panic, handleMetadataData_no_panic⟩
 
 /-- The full statement as it was first written down: no history from a freshly added torrent ever sets
-`panicked`.  It is **false** as stated (`no_panic_full_false`): three hypotheses are missing, each with a
-concrete panicking history below (section `Witnesses`).  The true statement is `no_panic_full_partial`. -/
+`panicked`.  It is **false** as stated (`no_panic_full_false`): two hypotheses are missing, each with a
+concrete panicking history below (section `Witnesses`).  The true statement is `no_panic_full_partial`.
+(Before rain's fix of finding C04-F9 — stale write results are ignored — two more were needed: no write in flight
+at all in the initial state, and `Cfg.blocksHaveData`; their witnesses W2, W3 no longer panic.) -/
 def no_panic_full : Prop :=
   ∀ (s0 : St), InitLike s0 → s0.panicked = none → ∀ evs : List Ev, drunAdmissible (s0, none) evs →
     (drun (s0, none) evs).1.panicked = none
 
-/-- **no_panic** (the inductive theorem; `no_panic_full` under three explicit, decidable extra hypotheses).
+/-- **no_panic** (the inductive theorem; `no_panic_full` under two explicit, decidable extra hypotheses).
 From a freshly added torrent (`InitLike`) that is not panicked, with
 
-* no piece write in flight in the initial state (`s0.writing = none`; `InitLike` does not say so),
-* a configuration in which every piece that has blocks has a non-padding section
-  (`s0.cfg.blocksHaveData`, the converse of `CfgWF`),
+* no piece write *from a future generation of pieces* in flight in the initial state (`InitLike` does not say
+  so; every state the driver starts from has no write in flight at all),
 * every choice of the implementation accepted by the model — piece downloads (`drunAdmissible`, `reconcile`
   reports no error, as before) **and metadata downloads** (`drunAdmissibleI`, `reconcileIdl` reports no
   error: exactly the runs on which the driver reports neither C09 nor C13),
@@ -340,10 +341,10 @@ Go's panic sites (`crash(…)`, close of the closed `completeC`, nil bitfield). 
 `Full = Life ∧ CompInv ∧ WInv` (`Lemmas/LoopWInv*.lean`) is inductive and implies each handler's local
 precondition of `no_panic_partial`. -/
 theorem no_panic_full_partial (s0 : St) (h0 : InitLike s0) (hp : s0.panicked = none)
-    (hw : s0.writing = none) (hc : s0.cfg.blocksHaveData = true)
+    (hw : ∀ w, s0.writing = some w → w.gen ≤ s0.gen)
     (evs : List Ev) (ha : drunAdmissible (s0, none) evs) (hi : drunAdmissibleI (s0, none) evs) :
     (drun (s0, none) evs).1.panicked = none :=
-  (drun_full evs (s0, none) (h0.full hc hw) ha hi).2 hp
+  (drun_full evs (s0, none) (h0.full hw) ha hi).2 hp
 
 /-- The same for one event from any state satisfying the invariant (any parked message, any parameters). -/
 theorem no_panic_step (s : St) (p : Parked) (kn : Nat → Bool) (op : Op) (h : Full s) (hp : s.panicked = none) :
@@ -351,10 +352,40 @@ theorem no_panic_step (s : St) (p : Parked) (kn : Nat → Bool) (op : Op) (h : F
   ⟨(step_full s p kn op h).2 hp, (step_full s p kn op h).1⟩
 
 /-- The write/download invariant along whole histories (what the proof of `no_panic_full_partial` carries). -/
-theorem write_invariant_run (s0 : St) (h0 : InitLike s0) (hw : s0.writing = none)
-    (hc : s0.cfg.blocksHaveData = true) (evs : List Ev) (ha : drunAdmissible (s0, none) evs)
+theorem write_invariant_run (s0 : St) (h0 : InitLike s0) (hw : ∀ w, s0.writing = some w → w.gen ≤ s0.gen)
+    (evs : List Ev) (ha : drunAdmissible (s0, none) evs)
     (hi : drunAdmissibleI (s0, none) evs) : WInv (drun (s0, none) evs).1 :=
-  (drun_full evs (s0, none) (h0.full hc hw) ha hi).1.w
+  (drun_full evs (s0, none) (h0.full hw) ha hi).1.w
+
+/-- **stale_write_result_ignored** (fix for finding C04-F9).  The result of a write that was started in an earlier
+run of the torrent — the job's generation is not the current one, or no pieces are loaded (stopped, maybe started
+again, while the piece was being written or its result was held) —, good hash, with or without a write error:
+`handlePieceWriteDone` does nothing but forget the job and (same generation) clear its `Writing` flag.  Nothing
+else of the state changes — no bit, no `done`, no stop, no message, no panic: in particular not the nil-bitfield
+panic of the crash seed "piece written, result delivered after stop + restart". -/
+theorem stale_write_result_ignored (m : M) (w : WriteJob) (e : Bool) (hg : w.good = true)
+    (hst : w.gen ≠ m.1.gen ∨ m.1.loaded = false) :
+    handlePieceWriteDone m w e =
+      ({ m.1 with writing := none,
+                  wflag := if w.gen = m.1.gen then setAt m.1.wflag w.piece false else m.1.wflag }, m.2) := by
+  rw [handlePieceWriteDone_eq]
+  dsimp only
+  rw [if_neg (by simp [hg])]
+  rw [if_pos]
+  · rfl
+  · rcases hst with h | h
+    · simp [pwdReset, h]
+    · simp [pwdReset, h]
+
+/-- … in particular it keeps `panicked`, `bf`, `done`, `persisted`, the lifecycle and the outputs, whatever the state. -/
+theorem stale_write_result_ignored_fields (m : M) (w : WriteJob) (e : Bool) (hg : w.good = true)
+    (hst : w.gen ≠ m.1.gen ∨ m.1.loaded = false) :
+    (handlePieceWriteDone m w e).1.panicked = m.1.panicked ∧ (handlePieceWriteDone m w e).1.bf = m.1.bf ∧
+    (handlePieceWriteDone m w e).1.done = m.1.done ∧ (handlePieceWriteDone m w e).1.persisted = m.1.persisted ∧
+    (handlePieceWriteDone m w e).1.status = m.1.status ∧ (handlePieceWriteDone m w e).1.writing = none ∧
+    (handlePieceWriteDone m w e).2 = m.2 := by
+  rw [stale_write_result_ignored m w e hg hst]
+  exact ⟨rfl, rfl, rfl, rfl, rfl, rfl, rfl⟩
 
 /-- `stop`, then the stop timeout: `Stopped` in every case along a history — the extra hypothesis of
 `stop_waitstop_reaches_stopped` (the first step does not panic) is discharged by the invariant. -/
@@ -541,11 +572,11 @@ end Example
 
 /-! ### Witnesses: why `no_panic_full` needs the three extra hypotheses
 
-Each history below starts from an `InitLike`, unpanicked state, every `reconcile` is error-free
+Each history W1, W3 below starts from an `InitLike`, unpanicked state, every `reconcile` is error-free
 (`drunAdmissible`), and the model panics.  None of them is a run of rain: W1 is flagged by the driver as C13
-`metadata-download-inadmissible` (rain's `startInfoDownloaders` returns at once when `t.info != nil`), W2 needs
-block lists that `calcBlocks` never produces (blocks for a piece made of padding only), W3 needs a torrent
-object created with a piece write already in flight. -/
+`metadata-download-inadmissible` (rain's `startInfoDownloaders` returns at once when `t.info != nil`), W3 needs a
+torrent object created with a piece write of a future generation already in flight.  (W2 and the old W3 are kept
+as histories that panicked before the fix of finding C04-F9 and do not any more.) -/
 section Witnesses
 private theorem initLike_of (s : St) (h1 : s.cfg.wfCheck = true) (h2 : s.bad = s.cfg.dataSects) (h3 : s.bf = none)
     (h4 : s.persisted = none) (h5 : s.errC = false) (h6 : s.stopAnn = false) (h7 : s.allocator = false)
@@ -569,10 +600,11 @@ example : (drun (sW1, none) evsW1).1.panicked = some "allocator exists" ∧ drun
     sW1.writing = none ∧ sW1.cfg.blocksHaveData = true ∧ ¬ drunAdmissibleI (sW1, none) evsW1 := by decide
 example : InitLike sW1 := by apply initLike_of <;> decide
 
-/-- W2 — piece 1 consists of a padding file only but has a block (a configuration `blocksHaveData` rejects).
-Its write is held by the gate, a verify runs meanwhile (the verifier finds the padding piece fine: bit set),
-then the stale write completes without touching the storage and takes the success path:
-`already have the piece`. -/
+/-- (W2, historical) — piece 1 consists of a padding file only but has a block (a configuration
+`Cfg.blocksHaveData` rejects).  Its write is held by the gate, a verify runs meanwhile (the verifier finds the
+padding piece fine: bit set), then the stale write completes without touching the storage.  Before the fix of
+finding C04-F9 it took the success path: `already have the piece`.  Now the stale result is ignored: no panic,
+and `no_panic_full_partial` does not need `blocksHaveData` any more. -/
 private def cW2 : Cfg :=
   { pl := 16384, plens := [16384, 16384], blocks := [[(0, 16384)], [(0, 16384)]], flens := [16384, 16384],
     fpads := [false, true], fnames := ["t", "pad"] }
@@ -586,35 +618,50 @@ private def evsW2 : List Ev := [
   ⟨.msg 1 (.piece 1 0 16384 true), kn [1], [], []⟩,
   ⟨.verify, kn [1], [], []⟩,
   ⟨.gate .write false, kn [1], [], []⟩]
-example : (drun (sW2, none) evsW2).1.panicked = some "already have the piece" ∧ drunAdmissible (sW2, none) evsW2 ∧
-    drunAdmissibleI (sW2, none) evsW2 ∧ sW2.writing = none ∧ sW2.cfg.blocksHaveData = false := by decide
+example : (drun (sW2, none) evsW2).1.panicked = none ∧ (drun (sW2, none) evsW2).1.writing = none ∧
+    (drun (sW2, none) (evsW2.take 7)).1.writing.isSome = true ∧ (drun (sW2, none) (evsW2.take 7)).1.bf = some [false, true] ∧
+    drunAdmissible (sW2, none) evsW2 ∧ drunAdmissibleI (sW2, none) evsW2 ∧ sW2.writing = none ∧
+    sW2.cfg.blocksHaveData = false := by decide
 example : InitLike sW2 := by apply initLike_of <;> decide
 
-/-- W3 — `InitLike` does not exclude an initial state with a write in flight; a good job for a piece without
-sections (here: out of range) completes at the first event and finds no bitfield:
-`handlePieceWriteDone: nil bitfield`. -/
-private def sW3 : St := { s1 with writing := some { piece := 5, src := 0, good := true, gen := 0 } }
-private def evsW3 : List Ev := [⟨.nop, kn [], [], []⟩]
-private theorem w3 : (drun (sW3, none) evsW3).1.panicked = some "handlePieceWriteDone: nil bitfield" ∧
-    drunAdmissible (sW3, none) evsW3 ∧ drunAdmissibleI (sW3, none) evsW3 ∧ sW3.cfg.blocksHaveData = true ∧
-    sW3.panicked = none := by decide
-private theorem initLike_sW3 : InitLike sW3 := by apply initLike_of <;> decide
+/-- (W3, historical) — an initial state with a write in flight for a piece without sections: before the fix of
+finding C04-F9 its completion at the first event found no bitfield (`handlePieceWriteDone: nil bitfield`); now it
+is stale (nothing is loaded) and ignored. -/
+private def sW3o : St := { s1 with writing := some { piece := 5, src := 0, good := true, gen := 0 } }
+example : (drun (sW3o, none) [⟨.nop, kn [], [], []⟩]).1.panicked = none ∧
+    (drun (sW3o, none) [⟨.nop, kn [], [], []⟩]).1.writing = none := by decide
 
-/-- **`no_panic_full` is false as stated** (witness W3; W1 and W2 refute it as well). -/
+/-- W3 — `InitLike` does not exclude an initial state with a write in flight that claims to belong to the *next*
+generation of pieces.  The file is on disk and good; the job is held by the write gate; `start`: allocation,
+verification — the bit is set, the torrent seeds — and the pieces loaded are of the job's generation; the gate is
+released, the job is "current", its piece is written again and the success path finds the bit set:
+`already have the piece`.  (No torrent object is created with a write in flight.) -/
+private def sW3 : St :=
+  { s1 with fileExists := [true], known := [true], bad := [], gateWrite := true,
+            writing := some { piece := 0, src := 0, good := true, gen := 1 } }
+private def evsW3 : List Ev := [⟨.start, kn [], [], []⟩, ⟨.gate .write false, kn [], [], []⟩]
+private theorem w3 : (drun (sW3, none) evsW3).1.panicked = some "already have the piece" ∧
+    drunAdmissible (sW3, none) evsW3 ∧ drunAdmissibleI (sW3, none) evsW3 ∧
+    sW3.panicked = none ∧ (drun (sW3, none) (evsW3.take 1)).1.status = .seeding := by decide
+private theorem initLike_sW3 : InitLike sW3 :=
+  ⟨cfgWF_of_check _ (by decide), fun x hx => (by cases hx), rfl, rfl, rfl, rfl, rfl, rfl, rfl, rfl, rfl, rfl, rfl, rfl,
+    rfl, rfl, rfl⟩
+
+/-- **`no_panic_full` is false as stated** (witness W3; W1 refutes it as well). -/
 theorem no_panic_full_false : ¬ no_panic_full := by
   intro h
-  have := h sW3 initLike_sW3 w3.2.2.2.2 evsW3 w3.2.1
+  have := h sW3 initLike_sW3 w3.2.2.2.1 evsW3 w3.2.1
   rw [w3.1] at this
   cases this
 
 /-! Non-vacuity of `no_panic_full_partial`: the download of `evs1` (start, peer, have-all, unchoke, block →
 verified write → seeding) and the stop after it satisfy every hypothesis. -/
-example : InitLike s1 ∧ s1.panicked = none ∧ s1.writing = none ∧ s1.cfg.blocksHaveData = true ∧
+example : InitLike s1 ∧ s1.panicked = none ∧ s1.writing = none ∧
     drunAdmissible (s1, none) (evs1 ++ [⟨.stop, kn [1], [], []⟩]) ∧
     drunAdmissibleI (s1, none) (evs1 ++ [⟨.stop, kn [1], [], []⟩]) :=
-  ⟨by apply initLike_of <;> decide, by decide, by decide, by decide, by decide, by decide⟩
+  ⟨by apply initLike_of <;> decide, by decide, by decide, by decide, by decide⟩
 example : (drun (s1, none) (evs1 ++ [⟨.stop, kn [1], [], []⟩])).1.panicked = none :=
-  no_panic_full_partial s1 (by apply initLike_of <;> decide) (by decide) (by decide) (by decide) _ (by decide) (by decide)
+  no_panic_full_partial s1 (by apply initLike_of <;> decide) (by decide) (noFuture_of_none (by decide)) _ (by decide) (by decide)
 /-- a magnet link whose metadata arrives (W1 without the inadmissible choice) -/
 example : drunAdmissible (sW1, none) (evsW1.take 5 ++ [⟨.gate .open false, kn [1], [], []⟩]) ∧
     (drun (sW1, none) (evsW1.take 5 ++ [⟨.gate .open false, kn [1], [], []⟩])).1.status = .downloading := by decide
@@ -664,7 +711,7 @@ private def evsS : List Ev := [
 private def evS : Ev := ⟨.metadata 1 0 100 true, kn [1, 2], [], []⟩
 
 example : Full (drun (sS true, none) evsS).1 :=
-  (drun_full evsS (sS true, none) (InitLike.full (by apply initLike_of <;> decide) (by decide) (by decide))
+  (drun_full evsS (sS true, none) (InitLike.full (by apply initLike_of <;> decide) (noFuture_of_none (by decide)))
     (by decide) (by decide)).1
 example : (drun (sS true, none) evsS).1.panicked = none ∧ (drun (sS true, none) evsS).1.doVerify = false ∧
     ((drun (sS true, none) evsS).1.findPeer 1).isSome = true ∧ (drun (sS true, none) evsS).1.peers.length = 2 ∧
